@@ -230,6 +230,9 @@ func registerSimProfiles() {
 	if err := psatoken.RegisterProfile(XWProfile{}); err != nil {
 		panic(err)
 	}
+	if err := psatoken.RegisterProfile(XCProfile{}); err != nil {
+		panic(err)
+	}
 	simProfilesRegistered = true
 }
 
@@ -276,7 +279,42 @@ type EmbPlainShape struct {
 	G *string `cbor:"7,keyasint,omitempty" json:"g,omitempty"`
 }
 
-const nShapes = 7
+// DupShape repeats, in the outer struct, a key its embedded struct already
+// uses: the embedding-aware encoders must refuse it with an error.
+type DupShape struct {
+	FlatShape
+	A2 *int64 `cbor:"1,keyasint,omitempty" json:"a,omitempty"`
+}
+
+// BadKeyShape has a field whose CBOR key is not an integer and a field with a
+// CBOR tag but no JSON tag.
+type BadKeyShape struct {
+	X *int64 `cbor:"abc,keyasint,omitempty" json:"x,omitempty"`
+	Y *int64 `cbor:"2,keyasint,omitempty"`
+	Z *int64 `json:"z,omitempty"`
+}
+
+// RecShape nests a value of its own type (EAT-style sub-module), each level
+// decoding through the embedding-aware helper again.
+type RecShape struct {
+	A   *int64    `cbor:"1,keyasint,omitempty" json:"a,omitempty"`
+	Sub *RecShape `cbor:"9,keyasint,omitempty" json:"sub,omitempty"`
+}
+
+func (o RecShape) MarshalCBOR() ([]byte, error) { //nolint:gocritic
+	return encoding.SerializeStructToCBOR(xem, &o)
+}
+func (o *RecShape) UnmarshalCBOR(data []byte) error {
+	return encoding.PopulateStructFromCBOR(xdm, data, o)
+}
+func (o RecShape) MarshalJSON() ([]byte, error) { //nolint:gocritic
+	return encoding.SerializeStructToJSON(&o)
+}
+func (o *RecShape) UnmarshalJSON(data []byte) error {
+	return encoding.PopulateStructFromJSON(data, o)
+}
+
+const nShapes = 10
 
 func newShape(kind int) any {
 	switch kind % nShapes {
@@ -284,8 +322,14 @@ func newShape(kind int) any {
 		return &PlainShape{}
 	case 6:
 		return &EmbPlainShape{}
+	case 7:
+		return &DupShape{}
+	case 8:
+		return &BadKeyShape{}
+	case 9:
+		return &RecShape{}
 	}
-	switch kind % 5 {
+	switch kind % nShapes {
 	case 0:
 		return &FlatShape{}
 	case 1:
@@ -314,8 +358,29 @@ func filledShape(kind int, a int64, b string, c []byte) any {
 		return &PlainShape{Seq: uint64(a), Name: b, Flag: e, Arr: [2]int{1, 2}}
 	case 6:
 		return &EmbPlainShape{PlainShape: PlainShape{Seq: uint64(a), Name: b, Arr: [2]int{3, 4}}, G: &b}
+	case 7:
+		if a%2 == 0 {
+			return &DupShape{FlatShape: f} // the repeated key is absent (omitempty): encodes
+		}
+		return &DupShape{FlatShape: f, A2: &a}
+	case 8:
+		if a%2 == 0 {
+			return &BadKeyShape{Y: &a, Z: &a}
+		}
+		return &BadKeyShape{X: &a, Y: &a}
+	case 9:
+		// 1..30 levels (the CBOR decoder's own nesting limit is 32)
+		depth := 1 + int(uint64(a)%30)
+		top := &RecShape{A: &a}
+		cur := top
+		for i := 1; i < depth; i++ {
+			v := int64(i)
+			cur.Sub = &RecShape{A: &v}
+			cur = cur.Sub
+		}
+		return top
 	}
-	switch kind % 5 {
+	switch kind % nShapes {
 	case 0:
 		return &f
 	case 1:
@@ -608,11 +673,16 @@ func localProfileB(name string) psatoken.IProfile {
 // ---- wide extension over profile 2: up to 20 optional extra claims, so that
 // the number of top-level claims crosses the CBOR header boundary at 23/24
 
-const xwName = "http://sim.example/psa/xw"
+// (upper-case letters in the host: a legal URI, and a different name from its lower-case spelling)
+const xwName = "http://Sim.Example/psa/xw"
 
 type XWClaims struct {
 	psatoken.P2Claims
+	XWBulk
 	Stamp *time.Time `cbor:"-75399,keyasint,omitempty" json:"w-stamp,omitempty"`
+	// the same options spelt in other legal ways
+	Alt1 *int64 `cbor:"-75398,omitempty,keyasint" json:"w-alt1,omitempty"`
+	Alt2 *int64 `cbor:"-75397,omitempty" json:"w-alt2,omitempty"`
 	W00   *int64     `cbor:"-75300,keyasint,omitempty" json:"w-00,omitempty"`
 	W01   *int64     `cbor:"-75301,keyasint,omitempty" json:"w-01,omitempty"`
 	W02   *int64     `cbor:"-75302,keyasint,omitempty" json:"w-02,omitempty"`
@@ -645,7 +715,9 @@ func (o *XWClaims) GetStamp() string {
 }
 
 func (o *XWClaims) wide() []**int64 {
-	return []**int64{&o.W00, &o.W01, &o.W02, &o.W03, &o.W04, &o.W05, &o.W06, &o.W07, &o.W08, &o.W09, &o.W10, &o.W11, &o.W12, &o.W13, &o.W14, &o.W15, &o.W16, &o.W17, &o.W18, &o.W19}
+	w := []**int64{&o.W00, &o.W01, &o.W02, &o.W03, &o.W04, &o.W05, &o.W06, &o.W07, &o.W08, &o.W09, &o.W10, &o.W11, &o.W12, &o.W13, &o.W14, &o.W15, &o.W16, &o.W17, &o.W18, &o.W19}
+	w = append(w, o.XWBulk.bulk()...)
+	return append(w, &o.Alt1, &o.Alt2)
 }
 
 // GetWide renders the extra claims that are present.
@@ -703,6 +775,36 @@ func (XWProfile) GetClaims() psatoken.IClaims {
 		SwComponents:     &psatoken.SwComponents[*psatoken.SwComponent]{},
 		CanonicalProfile: xwName,
 	}}
+}
+
+// ---- a derived profile that re-uses P2Claims itself (no claim of its own, no
+// codec of its own) and plugs a component type of its own into the container:
+// the stock component plus one more field, default struct-tag codecs
+
+const xcName = "http://sim.example/psa/xc"
+
+type XSwExt struct {
+	psatoken.SwComponent
+	Extra *string `cbor:"7,keyasint,omitempty" json:"x-extra,omitempty"`
+}
+
+// GetXExtra renders the additional field.
+func (c *XSwExt) GetXExtra() string {
+	if c == nil || c.Extra == nil {
+		return "-"
+	}
+	return fmt.Sprintf("%q", *c.Extra)
+}
+
+type XCProfile struct{}
+
+func (XCProfile) GetName() string { return xcName }
+func (XCProfile) GetClaims() psatoken.IClaims {
+	return &psatoken.P2Claims{
+		Profile:          eatProfileOf(xcName),
+		SwComponents:     &psatoken.SwComponents[*XSwExt]{},
+		CanonicalProfile: xcName,
+	}
 }
 
 // ---- a user software-component type whose encoder can be made to fail
